@@ -10,6 +10,11 @@ set_option linter.unusedSimpArgs false
 namespace Ctrl
 open Arena Rs Lemmas
 
+theorem lt_length_of_get' {l : List Chunk} {i : Nat} {c : Chunk} (h : l[i]? = some c) : i < l.length := by
+  rcases Nat.lt_or_ge i l.length with h1 | h1
+  · exact h1
+  · rw [List.getElem?_eq_none h1] at h; cases h
+
 /-- `s'` differs from `s` at most in the BYTES stored in the chunks -/
 structure SameShape (s s' : State) : Prop where
   cur : s'.cur = s.cur
@@ -93,5 +98,48 @@ theorem setPosAlignFrom_down {cfg : Cfg} {s : State} {pos ea : Nat} (hup : cfg.u
   · rename_i hlt
     have hdvd : s.minAlign ∣ pos := Nat.dvd_trans (hm.p2.dvd_of_le hea (by omega)) hal
     rw [downAlign_eq_self hdvd]; rfl
+
+end Ctrl
+
+namespace Ctrl
+open Arena Rs Lemmas
+
+/-! ## Moving a position does not change any byte -/
+
+theorem find?_setpos (a q : Nat) : ∀ (l : List Chunk) (i : Nat),
+    ((l.modify i (fun c => { c with pos := q })).find? (fun c => c.base ≤ a ∧ a < c.base + c.size)).map
+        (fun c => c.data.getD (a - c.base) 0) =
+      (l.find? (fun c => c.base ≤ a ∧ a < c.base + c.size)).map (fun c => c.data.getD (a - c.base) 0) := by
+  intro l
+  induction l with
+  | nil => intro i; rw [List.modify_nil]
+  | cons c t ih =>
+    intro i
+    cases i with
+    | zero =>
+      rw [List.modify_zero_cons, List.find?_cons, List.find?_cons]
+      by_cases hp : (decide (c.base ≤ a ∧ a < c.base + c.size)) = true
+      · simp only [hp]; rfl
+      · simp only [hp]
+    | succ i =>
+      rw [List.modify_succ_cons, List.find?_cons, List.find?_cons]
+      by_cases hp : (decide (c.base ≤ a ∧ a < c.base + c.size)) = true
+      · simp only [hp]
+      · simp only [hp]; exact ih i
+
+theorem readByte_setPos (s : State) (i q a : Nat) : readByte (setPos s i q) a = readByte s a := by
+  have h := find?_setpos a q s.chunks i
+  unfold readByte
+  rw [setPos_chunks]
+  cases h1 : (s.chunks.modify i (fun c => { c with pos := q })).find? (fun c => c.base ≤ a ∧ a < c.base + c.size) <;>
+    cases h2 : s.chunks.find? (fun c => c.base ≤ a ∧ a < c.base + c.size) <;>
+    rw [h1, h2] at h <;> simp only [Option.map_some, Option.map_none, Option.some.injEq, reduceCtorEq] at h
+  · exact h
+
+theorem readByte_setCurPos (s : State) (q a : Nat) : readByte (setCurPos s q) a = readByte s a := by
+  unfold setCurPos
+  split
+  · exact readByte_setPos s _ q a
+  · rfl
 
 end Ctrl
